@@ -207,6 +207,15 @@ func (b *backend) handle(raw net.Conn) {
 	var conn net.Conn = &brConn{Conn: raw, r: br}
 	_ = raw.SetReadDeadline(time.Now().Add(stallGrace))
 
+	// 0. a service that speaks first writes its greeting as soon as it has accepted (inside TLS: after the handshake)
+	if b.greet && b.mode != modeTLS {
+		_ = raw.SetWriteDeadline(time.Now().Add(stallGrace))
+		if _, err := raw.Write(makeGreeting(b.id)); err != nil {
+			b.zero.Add(1)
+			return
+		}
+	}
+
 	// 1. PROXY protocol header
 	ppPresent, ppVer, ppSrc, ppDst, ppErr := readProxyHeader(br)
 	if !ppPresent && ppErr != nil {
@@ -244,6 +253,10 @@ func (b *backend) handle(raw net.Conn) {
 		if err := tc.Handshake(); err != nil {
 			if err == io.EOF || strings.Contains(err.Error(), "EOF") {
 				b.zero.Add(1) // user gave up before the handshake (user side reports)
+				return
+			}
+			if !b.px.reliable || b.px.abortInFlight.Load() > 0 {
+				cs.run.Count("truncated_first_message_unjudged", 1)
 				return
 			}
 			cs.fail(nil, "https-tls-handshake-failed", "backend %s: TLS handshake through the tunnel failed: %v", b.id, err)
@@ -288,8 +301,8 @@ func (b *backend) handle(raw net.Conn) {
 		pre = line
 	}
 
-	// 3. greeting (server-speaks-first services)
-	if b.greet {
+	// 3. greeting inside TLS
+	if b.greet && b.mode == modeTLS {
 		_ = conn.SetWriteDeadline(time.Now().Add(stallGrace))
 		if _, err := conn.Write(makeGreeting(b.id)); err != nil {
 			b.zero.Add(1)
@@ -321,6 +334,7 @@ func (b *backend) handle(raw net.Conn) {
 			// the user closed abruptly (abort script) or the path is not reliable (kcp): a truncated first message claims nothing
 			cs.run.Count("truncated_first_message_unjudged", 1)
 		case b.px.cfg.Kind == "tcpmux" && !cs.sv.passthrough && b.px.earlyInFlight.Load() > 0:
+			b.px.early.Range(func(k, _ any) bool { k.(*plan).failed.Store(true); return true })
 			cs.fail(nil, "tcpmux-early-data-lost", "backend %s: a user sent payload in the same write as its CONNECT request; the backend's stream starts %d bytes later / differently (got %x, read error %v)", b.id, hdrLen-n, hdr[:n], err)
 		case partial:
 			cs.fail(nil, "orderly-close-truncated-up", "backend %s: only %d of the %d bytes of a user's first message arrived before end-of-stream (%v)", b.id, n, hdrLen, err)
@@ -455,7 +469,7 @@ func (b *backend) script(pl *plan, conn net.Conn) {
 		if res.Stalled && cfg.Closer == "U" {
 			select {
 			case <-pl.uClosed:
-				cs.fail(pl, "close-not-propagated-to-backend", "proxy %s: user closed mid-stream, backend connection saw neither data nor end-of-stream for %v", px.name, stallGrace)
+				cs.fail(pl, cs.closeKey(pl, "up"), "proxy %s: user closed mid-stream, backend connection saw neither data nor end-of-stream for %v", px.name, stallGrace)
 			default:
 			}
 		}
@@ -487,7 +501,7 @@ func (b *backend) expectClose(pl *plan, conn net.Conn) {
 	case n > 0:
 		b.cs.fail(pl, "bytes-injected", "proxy %s: backend received %d bytes (%x) after the complete stream, the user wrote nothing more", b.px.name, n, buf[:n])
 	case err != nil && isTimeout(err):
-		b.cs.fail(pl, "close-not-propagated-to-backend", "proxy %s: user closed its connection, backend connection still open %v later", b.px.name, closeGrace)
+		b.cs.fail(pl, b.cs.closeKey(pl, "up"), "proxy %s: user closed its connection, backend connection still open %v later", b.px.name, closeGrace)
 	default:
 		b.cs.run.Count("closes_propagated_to_backend", 1)
 	}
